@@ -140,6 +140,45 @@ def scalar_items(nl, nw):
     ]
 
 
+F_IFMA_FIELD = CD + 'backend/vector/ifma/field.rs'
+
+
+def ifma_items(srcs):
+    sf = srcs.get(F_IFMA_FIELD)
+    U, R = 'F51x4Unreduced', 'F51x4Reduced'
+    items = [
+        ItemSpec('new', 'new', self_type=U, expect=(20, 20), note='inputs: the limbs of x0, x1, x2, x3'),
+        ItemSpec('split', 'split', self_type=U, expect=(20, 20)),
+        ItemSpec('negate_lazy', 'negate_lazy', self_type=U, expect=(20, 20)),
+        ItemSpec('diff_sum', 'diff_sum', self_type=U, expect=(20, 20)),
+        ItemSpec('add', 'add', self_type=U, trait='Add', expect=(40, 20)),
+        ItemSpec('reduce', 'from', self_type=R, trait='From', trait_arg=U, expect=(20, 20),
+                 note='`impl From<F51x4Unreduced> for F51x4Reduced` (the weak reduction)'),
+        ItemSpec('unreduce', 'from', self_type=U, trait='From', trait_arg=R, expect=(20, 20),
+                 note='`impl From<F51x4Reduced> for F51x4Unreduced` (identity on the lanes)'),
+        ItemSpec('neg', 'neg', self_type=R, trait='Neg', expect=(20, 20)),
+        ItemSpec('mul', 'mul', self_type=R, trait='Mul', trait_arg=R, expect=(40, 20)),
+        ItemSpec('mul_consts', 'mul', self_type=R, trait='Mul', trait_arg='(u32,u32,u32,u32)', expect=(24, 20),
+                 note='inputs: the 20 lanes then the four u32 scalars'),
+        ItemSpec('square', 'square', self_type=R, expect=(20, 20)),
+        ItemSpec('conditional_select', 'conditional_select', self_type=R, trait='ConditionallySelectable',
+                 expect=(41, 20), note='inputs: a, b, then the choice byte (asserted < 2); emitted as `sel c a b`'),
+        ItemSpec('conditional_assign', 'conditional_assign', self_type=R, trait='ConditionallySelectable',
+                 expect=(41, 20), note='inputs: self, other, then the choice byte (asserted < 2)'),
+    ]
+    for v in enum_variants(sf, 'Shuffle'):
+        for pre, ty in (('', U), ('reduced_', R)):
+            items.append(ItemSpec('%sshuffle_%s' % (pre, v), 'shuffle', self_type=ty, expect=(20, 20),
+                                  fixed_args={'control': enum_arg('Shuffle', v)},
+                                  note='%s::shuffle(Shuffle::%s)' % (ty, v)))
+    for v in enum_variants(sf, 'Lanes'):
+        for pre, ty in (('', U), ('reduced_', R)):
+            items.append(ItemSpec('%sblend_%s' % (pre, v), 'blend', self_type=ty, expect=(40, 20),
+                                  fixed_args={'control': enum_arg('Lanes', v)},
+                                  note='%s::blend(other, Lanes::%s): inputs self then other' % (ty, v)))
+    return items
+
+
 MODULES = [
     ModuleSpec('Field51', F_FIELD64, 'FieldElement51', None, [
         ItemSpec('add', 'add_assign', trait='AddAssign', expect=(10, 5)),
@@ -177,6 +216,9 @@ MODULES = [
                vec=dict(extra=[F_FIELD64, F_AVX2],
                         imports={('crate', 'backend', 'vector', 'avx2', 'constants'): F_AVX2},
                         wrappers=F_PACKED_SIMD, enums=['Shuffle', 'Lanes'], expand=avx2_items)),
+    ModuleSpec('IfmaField', F_IFMA_FIELD, 'F51x4Unreduced', None, None,
+               vec=dict(extra=[F_FIELD64], imports={}, wrappers=F_PACKED_SIMD, enums=['Shuffle', 'Lanes'],
+                        expand=ifma_items)),
 ]
 
 # (namespace, file, mode)
@@ -192,7 +234,7 @@ CONST_SOURCES = [
 ]
 
 ALL_FILES = [F_FIELD64, F_FIELD32, F_SCALAR64, F_SCALAR32, F_CONST64, F_CONST32, F_AVX2, F_IFMA,
-             F_TOPCONST, F_SCALAR, F_EDCONST, F_X25519] + alggen.ALG_FILES + [F_AVX2_FIELD]
+             F_TOPCONST, F_SCALAR, F_EDCONST, F_X25519] + alggen.ALG_FILES + [F_AVX2_FIELD, F_IFMA_FIELD]
 
 HEADER = ('-- GENERATED by /verif/tools/rs2lean/rs2lean.py from the Rust sources -- DO NOT EDIT.\n'
           '-- Regenerated on every run; edits will be overwritten.\n')
@@ -331,12 +373,13 @@ def translate_item(srcs, mod, spec):
                 raise TransErr('top-level fn %s not found in %s (found %d)' % (spec.root, mod.src, len(cands)))
             item, imp, file = cands[0], None, main
         else:
-            if mod.self_type not in mctx.structs:
-                raise TransErr('struct %s not found in %s' % (mod.self_type, mod.src))
-            r = mctx.find_impl_member(mod.self_type, spec.root, trait=spec.trait, trait_arg=spec.trait_arg,
+            sty = spec.self_type or mod.self_type
+            if sty not in mctx.structs:
+                raise TransErr('struct %s not found in %s' % (sty, mod.src))
+            r = mctx.find_impl_member(sty, spec.root, trait=spec.trait, trait_arg=spec.trait_arg,
                                       self_ref=spec.self_ref)
             if r is None:
-                where = ('impl %s for %s' % (spec.trait, mod.self_type)) if spec.trait else ('impl ' + mod.self_type)
+                where = ('impl %s for %s' % (spec.trait, sty)) if spec.trait else ('impl ' + sty)
                 raise TransErr('fn %s not found in `%s` of %s (missing or renamed)' % (spec.root, where, mod.src))
             item, imp, file = r
         res['root'] = item.qualname()
